@@ -6,7 +6,7 @@ from .. import core, gen, compare, admit, interlib, exact as E
 from ..gen import Gen, tok
 from ..exact import add, sub, mul, neg, dot, cross
 
-TEMPLATES = ['random', 'translate', 'nested', 'shared-vertex', 'face-pyramid', 'coplanar', 'in-face-plane', 'self', 'cut', 'lattice-box', 'nested-touching', 'shared-face-plane']
+TEMPLATES = ['random', 'translate', 'nested', 'shared-vertex', 'face-pyramid', 'coplanar', 'in-face-plane', 'self', 'cut', 'lattice-box', 'nested-touching', 'shared-face-plane', 'shared-face-plane', 'nested-touching']
 
 
 def body_desc(G):
@@ -100,7 +100,7 @@ def make_case(G, i):
         # each body, with its own float noise, and the two copies must be recognised as one face
         for _ in range(20):
             fs, bk = G.special_body()
-            if R.random() < 0.8:
+            if R.random() < 0.95:
                 perm = R.sample(range(3), 3)
                 rows = [(1, 1, 0), (1, -1, 0), (0, 0, R.choice([1, 2]))]
                 M = [tuple(F(rows[j][perm.index(t)]) for t in range(3)) for j in range(3)]
@@ -114,7 +114,7 @@ def make_case(G, i):
             n = sorted((abs(c) for c in E.polygon_normal(f)), reverse=True)
             return n[0] == n[1] != 0
         tf = [f for f in fs if tied(f)]
-        f_ = R.choice(tf) if tf and R.random() < 0.8 else R.choice(fs)
+        f_ = R.choice(tf) if tf and R.random() < 0.95 else R.choice(fs)
         if R.random() < 0.3:
             t = add(mul(R.choice([F(1, 2), F(1, 4), F(-1, 2), F(3, 4)]), sub(f_[1], f_[0])), mul(R.choice([F(0), F(1, 4), F(-1, 4), F(1, 2)]), sub(f_[2], f_[1])))
             gs = translate(fs, t)
